@@ -38,7 +38,6 @@ def jopt : Option String → Json
 def errToJson : Err → Json
   | .outOfFuel => Json.arr #[Json.str "outOfFuel"]
   | .valueError t => Json.arr #[Json.str "ValueError", Json.str t]
-  | .keyError t => Json.arr #[Json.str "KeyError", Json.str t]
   | .multipleRecordTypes t => Json.arr #[Json.str "DataGenError", Json.str t]
 
 def lookupToJson (l : Lookup) : Json :=
